@@ -253,10 +253,86 @@ def run_f(case, ctx):
             'inconclusive': inconc}
 
 
+def _e_cases():
+    """E: a destination / directory argument that consists of a relativity alone (empty suffix, where the syntax allows
+    it: destination of copy, cd): the root directory of that relativity itself - and P: path arguments of the asserting
+    instructions (exists, contents, dir-contents), default relativity = current directory at the time of use."""
+    for cd in (None, 'tmp', 'act-sub'):
+        for phase in ('setup', 'before-assert', 'cleanup'):
+            yield {'t': 'E', 'cd': cd, 'phase': phase}
+
+
+def run_e(case, ctx):
+    ses = ctx.get_session()
+    d = os.path.realpath(ses.new_case_dir({'s1.txt': 'one', 's2.txt': 'two', 's3.txt': 'three', 's4.txt': 'four',
+                                           's5.txt': 'five'}))
+    cdl = {None: [], 'tmp': ['dir -rel-tmp td', 'cd -rel-tmp td'], 'act-sub': ['dir -rel-act as/deeper',
+                                                                               'cd -rel-act as/deeper']}[case['cd']]
+    cwd_rel = {None: 'act', 'tmp': 'tmp/td', 'act-sub': 'act/as/deeper'}[case['cd']]
+    body = ['dir -rel-tmp dest'] + cdl + [
+        'copy s1.txt -rel-tmp',
+        'copy s2.txt -rel-act',
+        'copy s3.txt -rel EXACTLY_TMP',
+        'def path PD = -rel-tmp dest',
+        'copy s4.txt -rel PD',
+        'copy s5.txt -rel-cd',
+        'file here.txt = "h"',
+        'dir heredir',
+        'file heredir/inner.txt = "i"',
+    ]
+    asserts = ['exists here.txt : type file', 'contents here.txt : equals "h"', 'dir-contents heredir : num-files == 1',
+               'exists heredir/inner.txt', 'exists -rel-cd here.txt']
+    if case['cd'] is not None:
+        asserts += ['dir-contents -rel-act . : -selection name here* is-empty']
+    L = ['[setup]']
+    if case['phase'] == 'setup':
+        L += body
+    L += ['[act]', '$ true']
+    if case['phase'] == 'before-assert':
+        L += ['[before-assert]'] + body
+    if case['phase'] != 'cleanup':
+        L += ['[assert]'] + asserts
+    else:
+        L += ['[cleanup]'] + body
+    text = '\n'.join(L) + '\n'
+    with open(os.path.join(d, 't.case'), 'w') as f:
+        f.write(text)
+    r = ses.run(['--keep', os.path.join(d, 't.case')], cwd=d, mode='keep')
+    viol, inconc = [], []
+    ident = first_line(r.err)
+    label = 'E cd=%s, instructions in [%s]' % (case['cd'], case['phase'])
+
+    def bad(msg):
+        viol.append({'what': 'C12 %s: %s' % (label, msg),
+                     'detail': {'case_text': text, 'observed': {'rc': r.rc, 'ident': ident, 'stderr': r.err[:800]}}})
+
+    if r.timed_out:
+        inconc.append('watchdog')
+    elif r.exc is not None:
+        bad('exception escaped MainProgram.execute')
+    elif not (r.rc == 0 and ident == 'PASS'):
+        bad('copies to a relativity root and assertions on files of the current directory must PASS, got %s/%r'
+            % (ident, r.rc))
+    else:
+        sds = r.out.strip()
+        ctx.count('c12.empty_suffix_and_assertion_default_checks')
+        for rel, want in (('tmp/s1.txt', 'one'), ('act/s2.txt', 'two'), ('tmp/s3.txt', 'three'),
+                          ('tmp/dest/s4.txt', 'four'), (cwd_rel + '/s5.txt', 'five'), (cwd_rel + '/here.txt', 'h'),
+                          (cwd_rel + '/heredir/inner.txt', 'i')):
+            if _read(os.path.join(sds, rel)) != want:
+                bad('expected %s with contents %r in the sandbox (a relativity without suffix denotes the root '
+                    'directory of that relativity; no relativity = the current directory)' % (rel, want))
+    ses.clean_tmp()
+    ses.drop(d)
+    return {'classes': [('E', case['cd'], case['phase'])], 'viol': viol, 'inconclusive': inconc}
+
+
 def cases(tier, seed):
     for c in _s_cases():
         yield c
     for c in _f_cases():
+        yield c
+    for c in _e_cases():
         yield c
     n = 0
     # ---------------- R core: depth 1 and 2, exhaustive; R_BATCH independent chains share one test case ----
@@ -854,6 +930,8 @@ def run_case(case, ctx):
         return run_s(case, ctx)
     if case['t'] == 'F':
         return run_f(case, ctx)
+    if case['t'] == 'E':
+        return run_e(case, ctx)
     ses = ctx.get_session()
     out = os.path.join(ses.io_dir, 'c12-probe.jsonl')
     try:
